@@ -40,7 +40,7 @@ Ltac icmp6_cks_sym :=
 (* icmp6SendPacket with any ICMPv6 message t :: c :: 0 :: 0 :: q *)
 Lemma icmp6_generic c sm si dm di t cd q junk :
   mac_ok (host_mac c) -> mac_ok dm -> ip6_ok si -> ip6_ok di -> t < 256 -> cd < 256 ->
-  bytes_ok q -> (length q <= 1400)%nat -> length junk = EthMaxSize ->
+  bytes_ok q -> (length q <= 1464)%nat -> length junk = EthMaxSize ->
   exists fr, icmp6_send_packet c (sm, si) (dm, di) (t :: cd :: 0 :: 0 :: q) junk = Ok [fr] /\
     wf_icmp6 (host_mac c) dm si di t cd (beq q) fr = true.
 Proof.
@@ -79,7 +79,7 @@ Lemma ra_partial c prefixes rdnss dm di junk ob :
   cat_opts ((match rdnss with Some (lt, srv) => [rdnss_option lt srv] | None => [] end)
             ++ map (fun p => prefix_option (u8 (fst p)) true true 7200 1800 (snd p)) prefixes
             ++ [dnssl_lan_option 1200; mtu_option (u32 (mtu c)); lla_option 1 (host_mac c)]) = Some ob ->
-  bytes_ok ob -> (length ob <= 1380)%nat -> length junk = EthMaxSize ->
+  bytes_ok ob -> (length ob <= 1452)%nat -> length junk = EthMaxSize ->
   exists fr, send_ra c prefixes rdnss (dm, di) junk = Ok [fr] /\
     wf_icmp6 (host_mac c) dm (host_lla c) di 134 0 (beq (ra_fixed ++ ob)) fr = true.
 Proof.
